@@ -8,6 +8,7 @@ import Acra.Drv.Net
 import Acra.Drv.Golay7
 import Acra.Drv.Ch11
 import Acra.Drv.Extra
+import Acra.Drv.AFDX
 namespace Acra.Drv
 def allCodecs : List Codec := List.flatten [
   ftiCodecs,
@@ -17,7 +18,8 @@ def allCodecs : List Codec := List.flatten [
   NetC.netCodecs,
   golay7Codecs,
   Ch11.ch11Codecs,
-  ExtraC.extraCodecs
+  ExtraC.extraCodecs,
+  AFDXC.afdxCodecs
 ]
 def allFuncs : List Func := List.flatten [
   ftiFuncs,
@@ -29,6 +31,7 @@ def allFuncs : List Func := List.flatten [
   NetC.netFuncs,
   golay7Funcs,
   Ch11.ch11Funcs,
-  ExtraC.extraFuncs
+  ExtraC.extraFuncs,
+  AFDXC.afdxFuncs
 ]
 end Acra.Drv
